@@ -219,6 +219,7 @@ func specialFamily() []*pg.Program {
 	feat("time-plain", func(p *pg.Program) { p.F.TimeImp = "plain" })
 	feat("time-alias", func(p *pg.Program) { p.F.TimeImp = "alias" })
 	feat("time-other", func(p *pg.Program) { p.F.TimeImp = "other" })
+	feat("debug-other", func(p *pg.Program) { p.F.DebugImp = "other" })
 	feat("cff-alias", func(p *pg.Program) { p.F.CffAlias = "c" })
 	feat("paren", func(p *pg.Program) { p.F.Paren = true })
 	feat("surround", func(p *pg.Program) { p.F.Surround = true })
@@ -611,6 +612,10 @@ func staticMain(prop, tier, build, overlay, repo, cffBin string) {
 			}
 		}
 	}
+	var modCov map[string]any
+	if prop == "C20" {
+		modCov = c20Modifier(tier, build, overlay, repo, cffBin, rep)
+	}
 	nontrivial := 0
 	for range famCount {
 		nontrivial++
@@ -638,6 +643,14 @@ func staticMain(prop, tier, build, overlay, repo, cffBin string) {
 			"rule":                          "bounded-exhaustive enumeration of abstract programs (all flow structures with <=2 tasks over <=2 (thorough 3) types incl. ill-formed ones, all 3-task unary flows, all listing orders of named shapes, the Slice/Map assignability lattice, spelling/context features); each is rendered to Go and processed by the cff binary built from the working tree; states = distinct programs, transitions = (program, mode) evaluations; a program is non-trivial/distinct by its structural key modulo type renaming and task order",
 		},
 		Assumptions: []string{"reference well-formedness rules are those of cff's documentation (DESIGN.md §4.3)", "go/types decides assignability and compilation"}}
+	for k, v := range modCov {
+		ev.Coverage[k] = v
+	}
+	if modCov != nil {
+		ev.Coverage["rule"] = ev.Coverage["rule"].(string) + "; modifier mode: the MOD family (flows from Params, Results, Concurrency and plain Tasks: named shapes, type spellings, task forms, import situations) is generated in base and in modifier mode, both are compiled and explored over all interleavings for every single failing and single panicking task; every execution of the modifier output is judged by the same reference oracles and the set of observable outcomes per scenario must equal the base-mode set"
+		ev.WallS = time.Since(rep.Start).Seconds()
+		ev.Violations = rep.Violations
+	}
 	if err := mc.WriteEvidence(ev); err != nil {
 		mc.ToolError("evidence: %v", err)
 	}
